@@ -94,6 +94,15 @@ CHECK_DEADLOCK FALSE
     return res, progs
 
 
+def gen_stack_sweep(ctx):
+    """EvmStackGen: stack height 1022 / 1023 / 1024 x every instruction with net effect +1."""
+    res = ctx.tlc("EvmStackGen", cfg="EvmStackGen.cfg", workers=2, timeout=600)
+    progs = [json.loads(raw.strip()[1:-1].replace('\\"', '"')) for raw in ctx.tlc_lines(res, "PROG")]
+    if len(progs) < 72:
+        raise Inconclusive("EvmStackGen produced %d programs" % len(progs))
+    return res, progs
+
+
 def gen_trees(ctx):
     """EvmTreeGen: factories that CREATE two different init codes with jumps, parents with two sibling sub calls."""
     res = ctx.tlc("EvmTreeGen", cfg="EvmTreeGen.cfg", workers=2, timeout=600)
@@ -125,12 +134,14 @@ def run(ctx):
     jobs.append(lambda: gen.setdefault("r", gen_programs(ctx, 30 if quick else 600, 14)))
     jobs.append(lambda: gen.setdefault("j", gen_jump_sweep(ctx, range(8) if quick else range(64))))
     jobs.append(lambda: gen.setdefault("t", gen_trees(ctx)))
+    jobs.append(lambda: gen.setdefault("s", gen_stack_sweep(ctx)))
     threads(jobs)
     drv = built["drv"]
     genres, progs = gen["r"]
     jumpres, jprogs = gen["j"]
     log("EvmGen: %d programs; EvmJumpGen: %d jump-destination cases" % (len(progs), len(jprogs)))
-    progs = progs + jprogs
+    stackres, sprogs = gen["s"]
+    progs = progs + jprogs + sprogs
     treeres, trees = gen["t"]
     if quick:  # every factory, every third sibling tree
         trees = [t for t in trees if t["fam"] == "factory"] + [t for t in trees if t["fam"] != "factory"][ctx.seed % 3::3]
@@ -198,6 +209,7 @@ def run(ctx):
         "states": states,
         "transitions": sum(r["generated"] for r in mc.values()) + genres["generated"] + jumpres["generated"],
         "jump_destination_sweep_cases": len(jprogs),
+        "stack_limit_sweep_cases": len(sprogs),
         "call_trees": tot["tree_programs"],
         "runs_recorded_up_to_the_step_bound_only": tot["truncated_runs"],
         "traces_validated_against_impl": tot["programs"],
@@ -223,5 +235,5 @@ def run(ctx):
         "gas is ample (400 000) in C10 runs: an out-of-gas fault is accepted only for a memory requirement above 64 KiB; gas itself is C11's subject",
         "KECCAK256 is computed by the harness (x/crypto) over the memory slice, which the monitor compares with the slice the reference selects",
         "call instructions and CREATE are outside the computational set: their own step is not judged, but every callee frame is judged like the outermost one, from the initial machine state with its own code and input (call trees: 30 000 000 gas, because a faulting callee takes 63/64 of it)",
-        "stack overflow at 1024 items is exercised by C11 (no value images)",
+        "the stack limit is swept at heights 1022 / 1023 / 1024 for every instruction with net effect +1; the steps that fill the stack are not recorded one by one (the complete state after them is, event Sync)",
     ])
